@@ -373,6 +373,8 @@ pub enum Motion {
 	WholeBuffer,
 	BeginningOfBuffer,
 	EndOfBuffer,
+	/// `{count}G` / `{count}gg`: the count is the line number
+	GotoLine,
 	ToColumn,
 	ToDelimMatch,
 	ToBrace(Direction),
